@@ -109,7 +109,8 @@ def run(pid, units, root, build, seed, per_fn=6):
         results = list(ex.map(do, jobs))
     asm.set_overlay(None)
     # a mutant is run once per mode of its unit; it is killed if ANY mode rejects it
-    order = {'killed': 0, 'survived': 1, 'undecided': 2, 'stale': 3}
+    # killed if any mode kills it; undecided if some mode could not be decided; survived only if every mode accepted it
+    order = {'killed': 0, 'undecided': 1, 'survived': 2, 'stale': 3}
     best = {}
     for m, st in results:
         key = (m['curated'], m['id'])
